@@ -126,12 +126,22 @@ class _Factory:
 FACTORY = _Factory()
 
 
+# derivation rules of the universe's derived (init=False) properties, by field name
+DERIVED = {
+    "n": lambda s: len(s.kids.get("items", ()) or ()),
+    "has_doc": lambda s: bool(s.props.get("doc", "")),
+}
+
+
 def effective_props(U: Universe, s: S) -> dict[str, Any]:
     """All user property values of the node the spec describes (defaults filled
     in by evaluating the class spec's default source in the universe module)."""
     out = {}
     for f in U.prop_fields(s.cls):
-        if f.name in s.props and f.init:
+        if f.shape == "derived":
+            # a property the class derives in its own __post_init__ (the spec knows the rule)
+            out[f.name] = DERIVED[f.name](s)
+        elif f.name in s.props and f.init:
             out[f.name] = s.props[f.name]
         elif f.factory is not None:
             out[f.name] = FACTORY  # per-instance value, unknown to the spec
